@@ -253,6 +253,9 @@ def build_custom(qn, kw):
     if qn == "Domain":
         from pydcop.dcop.objects import Domain
         return Domain(kw["name"], kw["domain_type"], kw["values"])
+    if qn == "VariableWithCostDict":
+        from pydcop.dcop.objects import VariableWithCostDict
+        return VariableWithCostDict(kw["name"], kw["domain"], kw["costs"], kw["initial_value"])
     if qn == "Link":
         from pydcop.computations_graph.objects import Link
         return Link(kw["nodes"], kw["link_type"])
@@ -623,7 +626,8 @@ VALS = [["I", 0], ["I", 1], ["I", 2], ["S", "a"], ["S", "b"], ["S", "R"], ["F", 
 
 def g_custom(rng, safe):
     c = rng.choice(["MaxSumMessage", "Mgm2OfferMessage", "PseudoTreeLink", "OrderLink", "FactorGraphLink",
-                    "AlgorithmDef", "ExpressionFunction", "Domain", "Link"])
+                    "AlgorithmDef", "ExpressionFunction", "Domain", "Link",
+                    "VariableWithCostDict", "VariableWithCostDict"])
     cost = lambda: rng.choice([["I", rng.randint(-9, 99)], ["F", frepr(rng.randint(-40, 400) / 8)],
                                ["F", rng.choice(SPECIAL if not safe else FLOATS)]])
     if c == "MaxSumMessage":
@@ -658,6 +662,24 @@ def g_custom(rng, safe):
                             ("1 if a == b else 0", {"a": ["S", "R"]}), ("v0", {})])
         return ["O", "pydcop.utils.expressionfunction", c,
                 [["expression", ["S", e]], ["source_file", ["N"]], ["fixed_vars", ["D", [[["S", k], v] for k, v in fv.items()]]]]]
+    if c == "VariableWithCostDict":
+        # the costs dict may cover a strict subset of the domain (the other values cost 0) and list its
+        # keys in another order than the domain: the typed keys must come back attached to the same costs
+        vals = _distinct([rng.choice(VALS[:7]) for _ in range(rng.randint(2, 5))])
+        dom = ["O", "pydcop.dcop.objects", "Domain", [["name", ["S", "d1"]], ["domain_type", ["S", "level"]],
+                                                      ["values", ["T", vals]]]]
+        keys = list(vals)
+        shape = rng.random()
+        if shape < 0.45 and len(keys) > 1:
+            keys = rng.sample(keys, rng.randint(0 if not safe else 1, len(keys) - 1))
+        if shape >= 0.3:
+            rng.shuffle(keys)
+            if len(keys) > 1 and keys == [v for v in vals if v in keys]:
+                keys.reverse()
+        return ["O", "pydcop.dcop.objects", c,
+                [["name", ["S", rng.choice(["x", "v1"])]], ["domain", dom],
+                 ["costs", ["D", [[k, cost()] for k in keys]]],
+                 ["initial_value", rng.choice([["N"], vals[0]])]]]
     if c == "Domain":
         vals = _distinct([rng.choice(VALS) for _ in range(rng.randint(1, 4))])
         return ["O", "pydcop.dcop.objects", c, [["name", ["S", "d1"]], ["domain_type", ["S", rng.choice(["color", ""])]],
@@ -763,15 +785,24 @@ def mk_dcop(rng):
     vals = (["R", "G", "B"] if strdom else [0, 1, 2])[:dsize]
     dom = Domain("d", "color" if strdom else "level", vals)
     variables = []
-    plain = rng.random() < 0.5
+    plain = rng.random() < 0.35
     for i in range(nv):
         n = "v%d" % i
         k = 0.0 if plain else rng.random()
-        if k < 0.5:
+        if k < 0.4:
             variables.append(Variable(n, dom, rng.choice([None] + vals)))
-        elif k < 0.75:
-            variables.append(VariableWithCostDict(n, dom, {x: rng.choice([rng.randint(0, 9), rng.randint(0, 36) / 4])
-                                                           for x in vals}))
+        elif k < 0.8:
+            # costs for a strict subset of the domain and / or in another order than the domain
+            keys = list(vals)
+            shape = rng.random()
+            if shape < 0.45:
+                keys = rng.sample(keys, rng.randint(1, len(keys) - 1))
+            if shape >= 0.3:
+                rng.shuffle(keys)
+                if len(keys) > 1 and keys == [v for v in vals if v in keys]:
+                    keys.reverse()
+            variables.append(VariableWithCostDict(n, dom, {x: rng.choice([rng.randint(1, 9), rng.randint(1, 36) / 4])
+                                                           for x in keys}))
         else:
             e = ("1 if %s == 'R' else 3" % n) if strdom else ("%s * 2 + 1" % n)
             variables.append(VariableWithCostFunc(n, dom, ExpressionFunction(e)))
@@ -984,6 +1015,7 @@ def census_objects(rng):
     objs += [d, ds, x1, x2, BinaryVariable("b1", rng.choice([0, 1])),
              VariableWithCostDict("x3", ds, {"R": 0.5, "G": rng.randint(0, 9)}),
              VariableWithCostDict("x4", d, {0: 0.5, 1: 1, 2: rng.randint(0, 9)}),
+             VariableWithCostDict("x7", d, {2: rng.randint(1, 9), 0: 0.5}),       # partial, not in domain order
              VariableWithCostFunc("x5", d, ExpressionFunction("x5 * 2"), 2),
              VariableNoisyCostFunc("x6", d, ExpressionFunction("x6 + 1"), noise_level=0.25),
              ExternalVariable("e1", d, rng.choice([0, 2])),
@@ -1193,6 +1225,10 @@ def py_safe(t, nan=False):
             return all(scal(v) for v in f["values"][1])
         if qn == "Link":
             return True
+        if qn == "VariableWithCostDict":
+            # any subset of the domain, in any order: scalar keys and costs
+            return py_safe(f["domain"], nan) and scal(f["name"]) and scal(f["initial_value"]) \
+                and all(scal(a) and scal(b) for a, b in f["costs"][1])
         if qn == "AgentDef":
             return all(py_safe(v, nan) for v in f.values())
     return False
